@@ -83,6 +83,9 @@ class LazyList:
                 position.stop,
                 position.step or 1,
             )
+            if step < 0 or (start or 0) < 0 or (stop or 0) < 0:
+                # Counting from the end needs the whole (finite) list
+                return self.listify()[position]
             if stop is None:
 
                 @lazylist
@@ -95,13 +98,9 @@ class LazyList:
                 return infinite_index()
             else:
                 ret = []
-                if step < 0:
-                    return LazyList(
-                        itertools.islice(self.listify(), start, stop, step)
-                    )
-                if stop < 0:
-                    stop = len(self) + stop
                 for i in range(start or 0, stop, step):
+                    if not self.has_ind(i):
+                        break
                     ret.append(self[i])
                 return ret
         else:
